@@ -94,3 +94,48 @@ fn c15_u_region_slice() {
     assert!(after == (before || touched), "C15: a write through a region slice marks exactly the pages it touches");
     assert!(log[0].load(Ordering::Relaxed) == init[0] && log[5].load(Ordering::Relaxed) == init[5], "C15: guards untouched");
 }
+
+/// minimal guest memory region (address range only) for AtomicBitmapMmap::new, which only asks a region
+/// for its start address and length
+struct RangeOnly {
+    start: u64,
+    len: u64,
+}
+impl GuestMemoryRegion for RangeOnly {
+    type B = ();
+    fn len(&self) -> vm_memory::GuestUsize {
+        self.len
+    }
+    fn start_addr(&self) -> vm_memory::GuestAddress {
+        vm_memory::GuestAddress(self.start)
+    }
+    fn bitmap(&self) -> vm_memory::bitmap::BS<'_, ()> {}
+}
+impl vm_memory::GuestMemoryRegionBytes for RangeOnly {}
+
+// @harness props=C15 tier=quick reach=off timeout=600 bound="AtomicBitmapMmap::new (the per-region acceptance rule of SET_LOG_BASE): page-aligned region of 1..=64 pages starting at page 0..=64, log of 1..=8 bytes: accepted iff the log covers the highest page; computed page offset/count" stubs="handle_alloc_error"
+#[kani::proof]
+#[kani::unwind(4)]
+#[kani::stub(std::alloc::handle_alloc_error, no_alloc_error)]
+fn c15_u_new_accepts_iff_log_covers() {
+    let log: [AtomicU8; 8] = [AtomicU8::new(0), AtomicU8::new(0), AtomicU8::new(0), AtomicU8::new(0), AtomicU8::new(0), AtomicU8::new(0), AtomicU8::new(0), AtomicU8::new(0)];
+    let l: usize = kani::any();
+    kani::assume(l >= 1 && l <= 8);
+    let logmem = ManuallyDrop::new(Arc::new(MmapLogReg { addr: log.as_ptr(), len: l }));
+    let s: u64 = kani::any();
+    let n: u64 = kani::any();
+    kani::assume(s <= 64 && n >= 1 && n <= 64);
+    let region = RangeOnly { start: s * 4096, len: n * 4096 };
+    let r = <AtomicBitmapMmap as MemRegionBitmap>::new(&region, Arc::clone(&logmem));
+    let highest_page = s + n - 1;
+    let fits = (highest_page / 8) < l as u64;
+    kani::cover!(r.is_ok() && l == 3);
+    match &r {
+        Ok(bm) => {
+            assert!(fits, "C15: a log too small for the highest guest page must be rejected");
+            assert!(bm.pages_before_region as u64 == s && bm.number_of_pages as u64 == n, "C15: region page offset / page count");
+        }
+        Err(_) => assert!(!fits, "C15: a log large enough for the highest guest page must be accepted"),
+    }
+    std::mem::forget(r);
+}
